@@ -4,8 +4,8 @@ Dimensions of physical quantities
 
 """
 
+import inspect
 from functools import wraps
-from itertools import chain
 
 from sympy import Rational, Symbol, sympify
 
@@ -263,7 +263,9 @@ def accepts(**arg_units):
             Decorated function.
 
         """
-        names_of_args = f.__code__.co_varnames
+        # the parameters of the decorated function itself, also when f is
+        # wrapped by another decorator (signature follows __wrapped__)
+        signature = inspect.signature(f)
 
         @wraps(f)
         def new_f(*args, **kwargs):
@@ -277,7 +279,17 @@ def accepts(**arg_units):
                 If the units do not match.
 
             """
-            for arg_name, arg_value in chain(zip(names_of_args, args), kwargs.items()):
+            try:
+                bound = signature.bind(*args, **kwargs)
+            except TypeError:
+                # not a valid call: f raises the usual error before it runs
+                return f(*args, **kwargs)
+            bound.apply_defaults()
+            arguments = dict(bound.arguments)
+            for name, param in signature.parameters.items():
+                if param.kind is param.VAR_KEYWORD:
+                    arguments.update(arguments.pop(name))
+            for arg_name, arg_value in arguments.items():
                 if arg_name in arg_units:  # function argument needs to be checked
                     dimension = arg_units[arg_name]
                     if not _has_dimensions(arg_value, dimension):
